@@ -9,7 +9,7 @@ from gen import schemas as G
 from gen import ops as OPS
 from props import c02
 
-HDR = ("Require Import OPC.gen.GenKinds OPC.Uni OPC.Names OPC.Codec OPC.CodecObs OPC.Types OPC.TypesObs.\nOpen Scope N_scope.\n"
+HDR = ("Require Import OPC.gen.GenKinds OPC.Uni OPC.Names OPC.Codec OPC.CodecObs OPC.Types OPC.TypesObs OPC.Endpoint OPC.Returns.\nOpen Scope N_scope.\n"
        "Definition lookup_f (n : str) (fs : list (str * pv)) : option pv := (fix go (fs : list (str * pv)) := match fs with [] => None | (k, v) :: r => if str_eqb k n then Some v else go r end) fs.\n"
        "Definition fields_inhabit (T : ctable) (v : pv) : bool := match v with PObj c fs ad => match get_class T c with Some cd => "
        "forallb (fun p => match lookup_f (fst p) fs with Some x => inhabits x (type_of (snd (snd p)) (fst (snd p))) | None => false end) (c_props cd) && "
@@ -74,6 +74,14 @@ def types_work(args):
                 except Exception as e:
                     ent["cty_error"] = repr(e)
                 out["props"].append(ent)
+            # the return annotation: Optional[<response_type()>] / Response[<response_type()>] of every variant
+            ent = {"cls": ep.name, "prop": "<return>", "required": True, "type_string": ep.response_type(),
+                   "ck_list": "[" + "; ".join(ab.ckind(ab.kind(r.prop)) for r in ep.responses) + "]"}
+            try:
+                ent["cty"] = tyabs.cty(ent["type_string"], ab)
+            except Exception as e:
+                ent["cty_error"] = repr(e)
+            out["props"].append(ent)
     except BaseException as e:  # noqa
         import traceback
         out["error"] = repr(e) + traceback.format_exc()[-800:]
@@ -110,6 +118,10 @@ def run(run, tier, replay=None):
             if "cty" not in ent:
                 run.violation("correspondence", {"label": r["label"], "doc": r["doc"], "owner": ent["cls"], "prop": ent["prop"], "type_string": ent["type_string"], "note": "annotation not parseable into Types.ty: " + ent["cty_error"]})
                 continue
+            if "ck_list" in ent:
+                terms.append(f"ty_same (response_ty_kinds {ent['ck_list']}) {ent['cty']}")
+                meta.append(("return", r, ent))
+                continue
             terms.append(f"ty_same (type_of {ent['ck']} {'true' if ent['required'] else 'false'}) {ent['cty']}")
             meta.append(("type", r, ent))
     hdr = HDR
@@ -134,7 +146,11 @@ def run(run, tier, replay=None):
         nb += 1
         if nb > 8:
             break
-        if what == "type":
+        if what == "return":
+            run.violation("correspondence", {"label": r["label"], "doc": r["doc"], "owner": x["cls"], "impl_return_type": x["type_string"],
+                                             "model": coq_eval(hdr, f"response_ty_kinds {x['ck_list']}")[-400:],
+                                             "note": "Endpoint.response_type() is no longer the union of all documented response types (Returns.response_ty), for which return_annotation_truthful is proved"})
+        elif what == "type":
             run.violation("correspondence", {"label": r["label"], "doc": r["doc"], "owner": x["cls"], "prop": x["prop"], "impl_type": x["type_string"],
                                              "model": coq_eval(hdr, f"type_of {x['ck']} {'true' if x['required'] else 'false'}")[-300:],
                                              "note": "get_type_string no longer equals Types.type_of, on which decode_inhabits_annotation is proved"})
